@@ -3,6 +3,7 @@ package main
 import (
 	"go/token"
 	"go/types"
+	"sync/atomic"
 
 	"golang.org/x/tools/go/ssa"
 )
@@ -70,7 +71,7 @@ func (fr *frame) ifConvert(x *ssa.If, c *Term) bool {
 	}
 	fr.phiOverride = over
 	fr.prev, fr.block = predT, J
-	fr.in.run.ifconv++
+	atomic.AddInt64(&fr.in.run.ifconv, 1)
 	return true
 }
 
